@@ -111,6 +111,20 @@ def expand_pred(fn, p, depth=0):
         for g in dom_guards(fn, b):
             if g.bb != p.bb:
                 out.extend(expand_pred(fn, g, depth + 1))
+    elif len(other) >= 2 and len(other) < len(alts) and all(b is not None for b, _ in other):
+        # several definitions remain possible (e.g. `let keep = a || (!b && c)` named and tested later): whatever guards ALL of
+        # them were defined under holds here
+        sets = []
+        for b, t in other:
+            gs = []
+            for g in dom_guards(fn, b):
+                if g.bb != p.bb:
+                    gs.extend(expand_pred(fn, g, depth + 1))
+            sets.append(gs)
+        for g in sets[0]:
+            key = (show(g.tree), g.val)
+            if all(any((show(h.tree), h.val) == key for h in s2) for s2 in sets[1:]):
+                out.append(g)
     return out
 
 
